@@ -878,7 +878,9 @@ func (m *Model) Step(u *ops.Universe, op ops.Op, out ops.Out) string {
 		if !ok {
 			return "harness: commit of an empty slot was not skipped"
 		}
-		delete(m.slots, op.W)
+		if out.Err == "" {
+			delete(m.slots, op.W)
+		}
 		r := m.Repos[sl.repo]
 		up := r.Uploads[sl.id]
 		dg := out.ID // the digest that was passed
@@ -909,11 +911,11 @@ func (m *Model) Step(u *ops.Universe, op ops.Op, out ops.Out) string {
 		if !ok {
 			return "harness: cancel of an empty slot was not skipped"
 		}
-		delete(m.slots, op.W)
 		if s := wantOK(); s != "" {
 			return s
 		}
 		m.Repos[sl.repo].Uploads[sl.id].Err = "canceled"
+		m.ev("upload-cancelled")
 		return ""
 
 	case "upClose":
